@@ -148,17 +148,47 @@ def product_overflows(A, B, spin):
     return False
 
 
+def _scale(obj, table):
+    """Magnitude against which rounding errors of this result are measured: chained products (x ** 5 ** 5) produce coefficients
+    of 1e9 that cancel to small values, and quotients produce tables of 1e-5; an elementwise or absolute tolerance is wrong for both."""
+    m = float(np.max(np.abs(table))) if len(table) else 0.0
+    for v in obj.values():
+        try:
+            m = max(m, abs(float(v)))
+        except (TypeError, ValueError):
+            pass
+    return m
+
+
+def values_equal(obj, got_table, table):
+    sc = _scale(obj, table)
+    if sc == 0:
+        return bool(np.all(np.asarray(got_table) == 0))
+    return bool(np.all(np.abs(np.asarray(got_table, dtype=float) - np.asarray(table, dtype=float)) <= 1e-9 * sc))
+
+
 def canon_check(obj, table, labels, spin):
-    """Stored dict must be the canonical multilinear form of the table: sorted keys, no repeats, no zeros."""
-    can = rp.canonical(table, labels, spin)
-    want = {tuple(labels[j] for j in k): v for k, v in can.items()}
-    # sort labels inside a key the way the library documents (ordering by type name then value)
-    want = {tuple(sorted(k, key=lambda x: (str(type(x)), x))): v for k, v in want.items()}
+    """Stored dict must be the canonical multilinear form of the table: sorted keys, no repeats, no zeros.  Coefficients are
+    compared relative to the magnitude of the result; a stored coefficient at rounding-noise level is not a zero."""
+    sc = _scale(obj, table)
+    c = rp.walsh(table) if spin else rp.moebius(table)
+    want = {}
+    for m in range(len(c)):
+        k = tuple(labels[j] for j in range(len(labels)) if (m >> j) & 1)
+        want[tuple(sorted(k, key=lambda x: (str(type(x)), x)))] = float(c[m])
     got = dict(obj)
-    if set(got) != set(want):
-        return "stored keys %s, canonical keys %s" % (sorted(got, key=repr), sorted(want, key=repr))
+    noise = 1e-9 * sc
+    zero = [k for k, v in got.items() if v == 0]
+    if zero:
+        return "zero coefficient stored under %r" % (zero[0],)
+    extra = [k for k in got if k not in want]
+    if extra:
+        return "stored key %r is not a canonical key (sorted, no repeated label)" % (extra[0],)
+    missing = [k for k, v in want.items() if k not in got and abs(v) > noise]
+    if missing:
+        return "stored keys %s lack the canonical key %r (coefficient %r)" % (sorted(got, key=repr), missing[0], want[missing[0]])
     for k in got:
-        if abs(got[k] - want[k]) > 1e-9 * (1 + abs(want[k])):
+        if abs(got[k] - want[k]) > noise:
             return "coefficient of %r is %r, canonical %r" % (k, got[k], want[k])
     return None
 
@@ -321,7 +351,7 @@ def step(hist):
             else:
                 if not isinstance(res, dict) or any(l not in labels for k in res for l in k):
                     v("labels", "result %s" % short(res))
-                elif not rp.tables_equal(rp.tt(res, labels, spin), ref):
+                elif not values_equal(res, rp.tt(res, labels, spin), ref):
                     v("value", "result %s differs pointwise from the reference (first differing assignment %s)" % (short(dict(res)), rp.first_diff(rp.tt(res, labels, spin), ref)))
                 else:
                     msg = canon_check(res, ref, labels, spin)
@@ -342,15 +372,16 @@ def step(hist):
 
     # .value on the state, every assignment, dict (and list for int labels)
     if not viol:
+        vtol = 1e-9 * max(1.0, _scale(cur, table))      # evaluation sums the stored coefficients: rounding is relative to their size
         for a in range(8):
             asg = rp.assignment(a, labels, spin)
             r, _w = call(cur.value, asg)
-            if isinstance(r, Raised) or abs(r - table[a]) > 1e-9 * (1 + abs(table[a])):
+            if isinstance(r, Raised) or abs(r - table[a]) > vtol:
                 viol.append(("value-method|dict|%s" % type(cur).__name__, "C05 history %s: .value(%r) = %r, reference %r" % (hist, asg, r, table[a])))
                 break
             if scheme == "int":
                 r, _w = call(cur.value, [asg[i] for i in range(3)])
-                if isinstance(r, Raised) or abs(r - table[a]) > 1e-9 * (1 + abs(table[a])):
+                if isinstance(r, Raised) or abs(r - table[a]) > vtol:
                     viol.append(("value-method|list|%s" % type(cur).__name__, "C05 history %s: .value(list %r) = %r, reference %r" % (hist, asg, r, table[a])))
                     break
     key = (hist[0][1], hist[0][2], type(cur).__name__, tuple(sorted(((k, round(float(v), 9)) for k, v in cur.items()), key=repr)))
@@ -415,14 +446,79 @@ def check_values(case, st):
                 st.violation("%s|argument-mutated" % fn, dict(case, container=cont, part="values"), "C05 %s changed its model argument" % fn)
 
 
+# ------------------------------------------------------------------ scalars at the ends of the float range (Engine A)
+
+EXTREME = [("div", 1e200), ("mul", 1e-200), ("div", float("inf")), ("mul", 0.0), ("mul", 1e200)]
+
+
+def extreme_cases():
+    for kind in ("bool", "spin"):
+        for cont in containers(kind):
+            if cont == "dict":
+                continue
+            for i, (op, c) in enumerate(EXTREME):
+                for inplace in (False, True):
+                    yield {"part": "extreme", "kind": kind, "container": cont, "op": i, "inplace": inplace}
+
+
+def check_extreme(case, st):
+    """Coefficients that underflow to zero (or are multiplied by zero) must disappear like every other zero; the result must stay
+    a model that further arithmetic accepts.  a = {x0: 1.0, x0 x1: 1e-300, (): 2.0}; r = a op c; r = r op c; then r + r."""
+    kind, cont = case["kind"], case["container"]
+    spin = kind == "spin"
+    op, c = EXTREME[case["op"]]
+    labels = gen.labels_for("int", 2)
+    D = {(0,): 1.0, (0, 1): 1e-300, (): 2.0}
+    M = gen.build(cont, D)
+    st.nontrivial += 1
+
+    def apply(x):
+        if case["inplace"]:
+            if op == "div":
+                x /= c
+            else:
+                x *= c
+            return x
+        return (x / c) if op == "div" else (x * c)
+    t = rp.tt(D, labels, spin)
+    cur = M
+    for stepno in (1, 2):
+        st.transitions += 1
+        st.traces += 1
+        r, _w = call(apply, cur)
+        with np.errstate(all="ignore"):
+            t = (t / c) if op == "div" else (t * c)
+
+        def v(k, msg):
+            st.violation("extreme|%s|%s" % (k, cont), case, "C05 %s %s: a = %s; a %s= %r applied %d time(s): %s"
+                         % (cont, "in place" if case["inplace"] else "forward", D, "/" if op == "div" else "*", c, stepno, msg))
+        if isinstance(r, Raised):
+            v("raises-" + r.kind, "raised %r" % r.exc)
+            return
+        if not np.all(np.isfinite(t)):
+            return        # overflow to inf: no claim
+        zero = [k for k, x in r.items() if x == 0]
+        if zero:
+            v("zero-stored", "result %s stores a zero coefficient under %r" % (short(dict(r)), zero[0]))
+            return
+        if not values_equal(r, rp.tt(r, labels, spin), t):
+            v("value", "result %s differs from the reference table %s" % (short(dict(r)), t.tolist()))
+            return
+        cur = r
+    r2, _w = call(lambda: cur + cur)
+    if isinstance(r2, Raised):
+        st.violation("extreme|sum-raises|%s" % cont, case, "C05 %s: after a %s= %r twice (result %s), r + r raised %r" % (cont, "/" if op == "div" else "*", c, short(dict(cur)), r2.exc))
+
+
 def run(ctx):
     depth = 2 if ctx.quick else 3
     ctx.bounds = {"variables": 3, "leaves": [rp.jdict(x) for x in LEAVES], "raw_dict_leaf": rp.jdict(RAW_BOOL), "numbers": NUMBERS, "divisors": DIVS,
-                  "schemes": SCHEMES, "expression_depth": depth, "coef_bound": COEF_BOUND, "ops_per_state": len(op_menu("bool", "int"))}
+                  "schemes": SCHEMES, "extreme_scalars": [[o, repr(c)] for o, c in EXTREME], "expression_depth": depth, "coef_bound": COEF_BOUND, "ops_per_state": len(op_menu("bool", "int"))}
     ctx.rule = ("state = (kind, labels, type, stored dict) reached by an expression history; every operator application from every state up to the depth; "
                 "non-trivial = value has >= 2 terms; plus the value functions on every leaf x container x label scheme x assignment x sequence form")
     ctx.assumptions = ["one side of every operator application is a leaf (left/right-deep expression trees)"]
     explore_cases(ctx, lambda: value_cases(), check_values, label="C05 values")
+    explore_cases(ctx, lambda: extreme_cases(), check_extreme, label="C05 extreme scalars")
     bfs(ctx, step, enabled, max_depth=depth + 1, label="C05 expressions",
         count_outcome=lambda h, r: "violation" if r["viol"] else ("raised-allowed/pruned" if r["key"] is None or not r.get("expand", True) else "ok"))
     ctx.exhaustive = True
@@ -432,6 +528,10 @@ def replay(case):
     if isinstance(case, dict) and case.get("part") == "values":
         st = Stats()
         check_values({k: case[k] for k in ("kind", "scheme", "leaf")}, st)
+        return [(s, m) for s, c, m in st.viol]
+    if isinstance(case, dict) and case.get("part") == "extreme":
+        st = Stats()
+        check_extreme({k: case[k] for k in ("part", "kind", "container", "op", "inplace")}, st)
         return [(s, m) for s, c, m in st.viol]
     r = step(case)
     return r["viol"]
